@@ -152,6 +152,8 @@ def check(ctx, rep):
     add_checks(rep, rt.series_partition_checks(t), 'C05a')
     affine_shape(ctx, rep, 'C05b')
     build_fragments_bindings(ctx, rep, 'C05b')
+    from . import C04
+    C04.shortcut_rule(ctx, rep, 'peptacular.fragmentation:_get_mass_components', 'C05b')
     add_checks(rep, rt.derived_table_checks(program), 'C05c', 'peptacular.chem.chem_constants')
     add_checks(rep, rt.sibling_table_checks(t), 'C05c')
     from .common import memo_rule
